@@ -160,6 +160,15 @@ def rule_pure_observers(ctx, only_timestamps=False):
                             r.violate(o, 'map-removal-not-expiry', alias, 'observer %s can remove a map entry that is not expired (in %s): '
                                       'a later lookup/iteration can observe the difference' % (o.split('::')[-1], x),
                                       where=ctx.where(x, line), path=path, expected='removals reachable from an observer are dominated by the expiry predicate')
+        # F7 shared cells: an observer only LOADS from atomics and takes READ locks.  A flag, hint or counter it stores into a shared cell
+        # (`purge_requested.store(true)`, a `Mutex`-protected hint) is state that a later insert / maintenance run branches on
+        _CELL_W = ('store', 'swap', 'fetch_add', 'fetch_sub', 'fetch_or', 'fetch_and', 'fetch_xor', 'fetch_nand', 'fetch_max', 'fetch_min', 'fetch_update',
+                   'compare_exchange', 'compare_exchange_weak', 'compare_and_swap', 'set', 'replace', 'take', 'borrow_mut', 'get_mut', 'write', 'try_write',
+                   'lock', 'try_lock')
+        for e in tr:
+            if e[0] == 'call' and e[1].split('::')[-1] in _CELL_W and any(w in e[1] for w in ('::atomic::', 'AtomicCell', '::RwLock::', '::Mutex::', '::cell::Cell::',
+                                                                                               '::cell::RefCell::', '::OnceLock::', '::OnceCell::')):
+                bad.append(('shared-cell-write', '::'.join(e[1].split('::')[-2:]), e))
         if only_timestamps:
             ts_names = {'%s.%s' % (a.split('::')[-1], f) for a, f in (sync_ts_fields(ctx) or SYNC_TS) + UNSYNC_TS}
             bad = [x for x in bad if (x[0] == 'state-write' and x[1] in ts_names) or x[0] in ('queue-send', 'op-construct', 'maintenance')]
